@@ -225,6 +225,17 @@ func cmdRun(args []string) int {
 		}
 	}
 	st.worker = w
+	if prop == "C19" {
+		cli := filepath.Join(verifDir, ".build", "gophersat")
+		cmd := exec.Command("go", "build", "-tags", "verif", "-o", cli, ".")
+		cmd.Dir = repoDir
+		cmd.Env = goEnv()
+		if b, err := cmd.CombinedOutput(); err != nil {
+			fmt.Printf("cannot build the gophersat binary from %s: %v\n%s", repoDir, err, b)
+			return 3
+		}
+		os.Setenv("VERIF_CLI", cli)
+	}
 	st.logDir = filepath.Join(verifDir, "logs", fmt.Sprintf("%s-%s-%d", prop, *tier, seed))
 	os.RemoveAll(st.logDir)
 	os.MkdirAll(st.logDir, 0o755)
@@ -314,7 +325,7 @@ func (st *runState) runBatch(id, lo, hi int) {
 		cmd := exec.Command(st.worker, "run", st.prop, st.tier, strconv.FormatUint(st.seed, 10), strconv.Itoa(lo), strconv.Itoa(hi), logPath, curPath)
 		cmd.Stdout = errf
 		cmd.Stderr = errf
-		cmd.Env = append(os.Environ(), "GOTRACEBACK=all", "GORACE=halt_on_error=0 exitcode=0 log_path="+base+".race")
+		cmd.Env = append(os.Environ(), "VERIF_SCRATCH="+st.logDir, "GOTRACEBACK=all", "GORACE=halt_on_error=0 exitcode=0 log_path="+base+".race")
 		if err := cmd.Start(); err != nil {
 			die("cannot start worker: %v", err)
 		}
